@@ -76,6 +76,16 @@ iterators         [a, b, c] / .iter() / .into_iter() / .flatten() / .map / .filt
 inverse map       a VarOrder function that reads `pos_to_var` gets the extra parameter `varAt` (its type then differs from the model's)
 elaboration guard the generated file is elaborated once (`lake env lean`); a definition on an error line falls back to its alias
                   (`UNTRANSLATED … does not elaborate`); a definition that elaborates but differs still breaks its tie
+local tables      `let mut cache = HashMap::new()` is a value of type Bdd.Memo ([]); `cache.get(&k)` / `cache.insert(k, v)` /
+                  `self.cond_with_alloc(x, l, v, &mut cache)` read and re-bind the local variable; a `for` loop threads every
+                  assigned local and every local table it mentions (several loop-carried variables -> a tuple result)
+more iterators    .filter_map / .fold(init, |acc, x| ..) / .max() / .min() / .last() / .next() / .chain(..)  -> List.filterMap / foldl /
+                  Gen.BddCore.listMax / listMin / getLast? / head? / ++ ;  order.in_order_iter() / reverse_in_order_iter() ->
+                  (List.range numVars).map varAt [reversed];  compound assignment `x += e` on locals
+new state         a builder field that is not one of order / apply_table / compute_table / stats (e.g. `smooth_table`), or
+                  `order.num_vars()` in a function whose model has no such parameter: the body is still read to the end (map-like
+                  methods get / insert / contains_key / push / len / clear on the field are accepted), then the function keeps its
+                  alias and the status is `DIFFERS (new state): …` (treated like a failed tie by the orchestrator)
 partiality        panic!(..) / .unwrap() on none                   -> `none` in a function whose model returns Option, otherwise UNTRANSLATED
 """
 import os, re, sys, traceback
@@ -86,6 +96,11 @@ OUT = os.path.join(ROOT, "lean", "RsddModel", "Model", "GenBddCore.lean")
 
 
 class Untranslatable(Exception):
+    pass
+
+
+class Differs(Exception):
+    """the whole body was read, but it takes / keeps state or parameters the model has no counterpart for"""
     pass
 
 
@@ -805,6 +820,7 @@ PLACEHOLDER = "\u0000HOLE\u0000"
 
 
 _CUR = [None]
+_TRS = []
 
 
 class Ctx:
@@ -837,7 +853,10 @@ class Tr:
         self.loop_ctl = []
         self.inline_depth = 0
         self.uses_varAt = False
+        self.new_state = []         # builder fields / order parameters read by the source that the model has no slot for
         self.file = _CUR[0]
+        self.cur_call = None
+        _TRS.append(self)
 
     # ---- names
     def fresh(self, base):
@@ -1010,7 +1029,10 @@ class Tr:
         if tag == "call":
             return self.call(e, ctx, k, hint)
         if tag == "mcall":
-            return self.tr_expr(e[1], ctx, lambda c, rv: self.tr_args(e[3], c, lambda c2, av: self.method(rv, e[2], av, c2, k, hint)))
+            def do_call(c2, rv, av):
+                self.cur_call = e
+                return self.method(rv, e[2], av, c2, k, hint)
+            return self.tr_expr(e[1], ctx, lambda c, rv: self.tr_args(e[3], c, lambda c2, av: do_call(c2, rv, av)))
         if tag == "try":
             if not self.ret_option:
                 raise Untranslatable("`?` in a function that does not return Option")
@@ -1109,6 +1131,9 @@ class Tr:
             raise Untranslatable("assignment to a field of self")
         if lhs[0] == "path" and len(lhs[1]) == 1 and lhs[1][0] in ctx.env and op == "=":
             return self.tr_expr(rhs, ctx, lambda c, v: k(c.bind(lhs[1][0], v), UNIT), lhs[1][0])
+        if lhs[0] == "path" and len(lhs[1]) == 1 and lhs[1][0] in ctx.env and op in ("+=", "-=", "*="):
+            nm = lhs[1][0]
+            return self.tr_expr(rhs, ctx, lambda c, v: k(c.bind(nm, self.binop(op[0], c.env[nm], v)), UNIT))
         raise Untranslatable("assignment")
 
     def macro(self, e, ctx, k):
@@ -1234,8 +1259,8 @@ class Tr:
             return L(ap("Bdd.Ite.new", o.text, *[lean(x) for x in vs[1:]]), "ite")
         if name == "Ite::IteConst" and len(vs) == 1:
             return KI("const", [lean(vs[0])])
-        if name in ("HashMap::new", "FxHashMap::default", "HashMap::default") and not vs:
-            return Marker("newmemo")
+        if name in ("HashMap::new", "FxHashMap::default", "HashMap::default", "HashMap::with_capacity") and len(vs) <= 1:
+            return L("[]", "memo")
         raise Untranslatable("call of " + name)
 
     # ---- Option helpers
@@ -1293,7 +1318,7 @@ class Tr:
                 if name == "high":
                     return k(ctx, mk_if(L(c, "bool"), L(ap("Bdd.Ptr.neg", hi), "ptr"), L(hi, "ptr")))
                 if name in ("var_safe",) or (name == "var" and self.self_kind == "order"):
-                    return k(ctx, L("some " + par(v), "opt"))
+                    return k(ctx, OptSome(L(v, "nat")))
                 if name == "neg":
                     return k(ctx, L(ap("Bdd.Ptr.neg", lean(rv)), "ptr"))
             raise Untranslatable("method .%s on a node pointer" % name)
@@ -1307,6 +1332,17 @@ class Tr:
             rv = L(lean(rv), ty_of(rv))
         if isinstance(rv, L) and rv.ty == "lit" and not av and name in ("label", "polarity", "get_label", "get_polarity"):
             return k(ctx, L(par(rv.text) + (".1" if "label" in name else ".2"), "nat" if "label" in name else "bool"))
+        if isinstance(rv, L) and rv.ty == "memo":
+            if name == "get" and len(av) == 1:
+                return k(ctx, L(ap("Bdd.Memo.get", rv.text, lean(av[0])), "opt"))
+            if name == "contains_key" and len(av) == 1:
+                return k(ctx, L(ap("Option.isSome", ap("Bdd.Memo.get", rv.text, lean(av[0]))), "bool"))
+            if name == "insert" and len(av) == 2:
+                nm = self.local_var_of(self.cur_call[1], ctx)
+                if nm is None:
+                    raise Untranslatable("insert into a temporary table")
+                return k(ctx.bind(nm, L("(%s, %s) :: %s" % (lean(av[0]), lean(av[1]), par(rv.text)), "memo")), UNIT)
+            raise Untranslatable("method .%s on a local table" % name)
         if isinstance(rv, L) and name == "assignment_iter" and not av and rv.ty == "assignlist":
             return k(ctx, rv)
         if isinstance(rv, L) and rv.ty in ("list", "assignlist", "natlist", "optlist", "anylist"):
@@ -1337,7 +1373,7 @@ class Tr:
                 if name == "is_false":
                     return k(ctx, L(ap("Bdd.Ptr.isFalse", t), "bool"))
                 if name == "var_safe" or (name == "var" and rv.ty in ("ptr", "any")):
-                    return k(ctx, L(ap("Bdd.Ptr.top?", t), "opt"))
+                    return k(ctx, L(ap("Bdd.Ptr.top?", t), "optnat"))
                 if name == "unwrap":
                     return self.opt_bind(rv, ctx, k, hint, on_none=self.fail("unwrap"))
                 if name == "is_compl_choice":
@@ -1372,8 +1408,21 @@ class Tr:
                 return k(ctx, L(ap("List.sum", t), "nat"))
             if name == "is_empty":
                 return k(ctx, L(ap("List.isEmpty", t), "bool"))
+        if not av and name in ("max", "min") and elem == "nat":
+            return k(ctx, L(ap("Gen.BddCore.listMax" if name == "max" else "Gen.BddCore.listMin", t), "optnat"))
+        if not av and name == "last":
+            return k(ctx, L(ap("List.getLast?", t), "optnat" if elem == "nat" else "opt"))
+        if not av and name in ("next", "first"):
+            return k(ctx, L(ap("List.head?", t), "optnat" if elem == "nat" else "opt"))
+        if len(av) == 1 and name == "chain" and ty_of(av[0]) == ty:
+            return k(ctx, L("%s ++ %s" % (par(t), par(lean(av[0]))), ty))
+        if len(av) == 2 and name == "fold" and isinstance(av[1], Clos):
+            fn, bt = self.closure_lambda(av[1], ctx, [ty_of(av[0]), elem])
+            return k(ctx, L(ap("List.foldl", fn, lean(av[0]), t), ty_of(av[0])))
         if len(av) == 1 and isinstance(av[0], Clos):
             fn, bt = self.closure_lambda(av[0], ctx, [elem])
+            if name == "filter_map":
+                return k(ctx, L(ap("List.filterMap", fn, t), "natlist" if bt == "optnat" else "anylist"))
             if name == "map":
                 return k(ctx, L(ap("List.map", fn, t), back.get(bt, "anylist")))
             if name == "filter":
@@ -1389,6 +1438,14 @@ class Tr:
         if len(av) == 1 and name in ("take", "skip"):
             return k(ctx, L(ap("List.take" if name == "take" else "List.drop", lean(av[0]), t), ty))
         raise Untranslatable("iterator method .%s" % name)
+
+    def local_var_of(self, ast_, ctx):
+        """the Rust variable behind `x`, `&x`, `&mut x` (None for a temporary)"""
+        while ast_[0] in ("ref", "cast"):
+            ast_ = ast_[1]
+        if ast_[0] == "path" and len(ast_[1]) == 1 and ast_[1][0] in ctx.env:
+            return ast_[1][0]
+        return None
 
     def check_hash(self, hv, key):
         if not (isinstance(hv, Marker) and hv.name == "hash" and hv.extra == origin_of(key)):
@@ -1408,7 +1465,15 @@ class Tr:
                 self.uses_varAt = True
                 return k(ctx, L(ap("varAt", lean(av[0])), "nat"))
             if name == "num_vars" and not av:
+                if "order.num_vars()" not in self.new_state:
+                    self.new_state.append("order.num_vars()")
                 return k(ctx, L("numVars", "nat"))
+            if name in ("in_order_iter", "reverse_in_order_iter") and not av:
+                if "order.num_vars()" not in self.new_state:
+                    self.new_state.append("order.num_vars()")
+                self.uses_varAt = True
+                t_ = "(List.range numVars).map varAt"
+                return k(ctx, L(t_ if name == "in_order_iter" else "List.reverse (%s)" % t_, "natlist"))
             if name == "between_iter" and len(av) == 2:
                 lo_, hi_ = lean(av[0]), lean(av[1])
                 return k(ctx, L("List.reverse ((List.range (%s - %s)).map (fun i => varAt (%s + i)))" % (par(hi_), par(lo_), par(lo_)), "natlist"))
@@ -1447,6 +1512,26 @@ class Tr:
             raise Untranslatable("compute_table.%s" % name)
         if m == "stats":
             return k(ctx, rv)
+        known_fields = ("self", "order", "apply_table", "table", "memo", "compute_table", "stats", "var_to_pos", "pos_to_var", "hash", "hashparam")
+        if m not in known_fields and self.self_kind == "builder":
+            # a field of the builder the model has no slot for: the body is still read to the end
+            if m not in self.new_state:
+                self.new_state.append(m)
+            if name in ("get", "get_mut", "remove") and len(av) == 1:
+                return k(ctx, L("(newState_%s.get %s)" % (m, par(lean(av[0]))), "opt"))
+            if name in ("contains_key", "contains") and len(av) == 1:
+                return k(ctx, L("(newState_%s.contains %s)" % (m, par(lean(av[0]))), "bool"))
+            if name in ("insert",) and len(av) in (1, 2):
+                return k(ctx, UNIT)
+            if name in ("push", "clear") and len(av) <= 1:
+                return k(ctx, UNIT)
+            if name in ("len",) and not av:
+                return k(ctx, L("newState_%s.len" % m, "nat"))
+            if name in ("is_empty",) and not av:
+                return k(ctx, L("newState_%s.isEmpty" % m, "bool"))
+            if name in ("get", "set", "replace", "take") and len(av) <= 1:     # Cell-like field
+                return k(ctx, L("newState_%s.value" % m, "any") if name != "set" else UNIT)
+            raise Untranslatable("method .%s on the builder field %s" % (name, m))
         if m == "self" and self.self_kind == "builder":
             a = [x for x in av]
             if name == "get_or_insert" and len(a) == 1 and isinstance(a[0], Node):
@@ -1463,8 +1548,13 @@ class Tr:
                 fn = "condition" if name == "condition" else "condHelper"
                 return k(ctx, L(ap(G + fn, "lvl", *[lean(x) for x in a]), "ptr"))
             if name == "cond_with_alloc" and len(a) == 4:
-                if isinstance(a[3], Marker) and a[3].name == "newmemo":
-                    return k(ctx, L(par(ap(G + "condWithAlloc", "lvl", lean(a[1]), lean(a[2]), lean(a[0]), "[]")) + ".2", "ptr"))
+                if isinstance(a[3], L) and a[3].ty == "memo":
+                    nm = self.local_var_of(self.cur_call[3][3], ctx)
+                    callee = ap(G + "condWithAlloc", "lvl", lean(a[1]), lean(a[2]), lean(a[0]), a[3].text)
+                    if nm is None:      # a temporary table: only the result is kept
+                        return k(ctx, L(par(callee) + ".2", "ptr"))
+                    m1, r1 = self.fresh("m"), self.fresh(hint or "r")
+                    return "(match %s with\n| (%s, %s) => %s)" % (callee, m1, r1, k(ctx.bind(nm, L(m1, "memo")), L(r1, "ptr")))
                 if isinstance(a[3], Marker) and a[3].name == "memo" and self.mode == "pairstate":
                     return self.effect_call(ap(G + "condWithAlloc", "lvl", lean(a[1]), lean(a[2]), lean(a[0]), ctx.state), ctx, k, hint)
                 raise Untranslatable("the memo argument of cond_with_alloc")
@@ -1827,8 +1917,8 @@ class Tr:
 
     # ---- for loops (only the accumulate-over-a-slice shape of or_lst / and_lst)
     def tr_for(self, e, ctx, k):
-        """`for x in xs { … acc = …; … }` with one loop-carried variable (and `break` / `continue`): an auxiliary
-        function, structurally recursive on the list, that threads the accumulator (and the state, if any)"""
+        """`for x in xs { … }` with loop-carried variables (assigned locals and local tables) and `break` /
+        `continue`: an auxiliary function, structurally recursive on the list, that threads them (and the state)"""
         _, pat, it, body = e
         if self.mode not in ("optstate", "pure") or self.loopname is None:
             raise Untranslatable("`for` loop in this kind of function")
@@ -1839,54 +1929,83 @@ class Tr:
         if ty_of(xs) not in elems:
             raise Untranslatable("`for` over an unsupported iterator")
         ety, evt = elems[ty_of(xs)]
-        carried = []
+        carried, mentioned = [], []
 
         def scan(a):
             if isinstance(a, tuple):
                 if a and a[0] == "assign" and a[2][0] == "path" and len(a[2][1]) == 1:
                     if a[2][1][0] not in carried:
                         carried.append(a[2][1][0])
+                if a and a[0] == "path" and len(a[1]) == 1 and a[1][0] not in mentioned:
+                    mentioned.append(a[1][0])
                 for x in a:
                     scan(x)
             elif isinstance(a, list):
                 for x in a:
                     scan(x)
         scan(body)
-        if len(carried) != 1 or carried[0] not in ctx.env:
-            raise Untranslatable("`for` loop without exactly one loop-carried variable")
-        acc = carried[0]
+        for nm in mentioned:    # a local table that the body uses is threaded too
+            if nm in ctx.env and ty_of(ctx.env[nm]) == "memo" and nm not in carried and nm != pat[1]:
+                carried.append(nm)
+        if not carried or any(c not in ctx.env for c in carried):
+            raise Untranslatable("`for` loop without loop-carried local variables")
+        ltypes = {"ptr": "Bdd.Ptr", "memo": "Bdd.Memo", "nat": "Nat", "bool": "Bool"}
+        ctys = [ty_of(ctx.env[c]) for c in carried]
+        if any(t not in ltypes for t in ctys):
+            raise Untranslatable("type of a loop-carried variable")
         stateful = self.mode == "optstate"
         sub = Tr("optstate" if stateful else "pure")
         sub.used, sub.file = set(self.used), self.file
-        a, x, rest = sub.fresh(acc), sub.fresh(pat[1]), sub.fresh("rest")
+        accs = [sub.fresh(c) for c in carried]
+        x, rest = sub.fresh(pat[1]), sub.fresh("rest")
         self.loopcount = getattr(self, "loopcount", 0) + 1
         lname = self.loopname if self.loopcount == 1 else "%s%d" % (self.loopname, self.loopcount)
         name = "Gen.BddCore." + lname
         pre = ["C", "lvl", "fuel"] if stateful else ["lvl"]
 
+        def vals(c):
+            return [lean(c.env[cn]) for cn in carried]
+
         def again(c):
-            return ap(name, *(pre + ([c.state] if stateful else []) + [lean(c.env[acc]), rest]))
+            return ap(name, *(pre + ([c.state] if stateful else []) + vals(c) + [rest]))
 
         def leave_loop(c):
-            return "some (%s, %s)" % (c.state, lean(c.env[acc])) if stateful else lean(c.env[acc])
+            tup = ", ".join(vals(c))
+            if stateful:
+                return "some (%s, %s)" % (c.state, tup)
+            return tup if len(carried) == 1 else "(%s)" % tup
         sub.loop_ctl.append({"break": leave_loop, "continue": again})
-        sub.mode_saved = sub.mode
-        inner = Ctx({acc: L(a, "ptr"), pat[1]: L(x, evt)}, "s" if stateful else None)
-        real_mode = sub.mode
         sub.ret_stack.append(lambda c, v: (_ for _ in ()).throw(Untranslatable("`return` inside a loop body")))
-        txt = sub.tr_block(body, inner, lambda c, v: again(c))
+        env = {cn: L(an, ct) for cn, an, ct in zip(carried, accs, ctys)}
+        env[pat[1]] = L(x, evt)
+        txt = sub.tr_block(body, Ctx(env, "s" if stateful else None), lambda c, v: again(c))
         self.uses_varAt = self.uses_varAt or sub.uses_varAt
+        binders = " ".join("(%s : %s)" % (an, ltypes[ct]) for an, ct in zip(accs, ctys))
+        rty = " × ".join(ltypes[ct] for ct in ctys)
         if stateful:
-            sig = "(C : Bdd.CacheImpl) (lvl : Nat → Nat) (fuel : Nat) (s : C.σ) (%s : Bdd.Ptr) : List %s → Option (C.σ × Bdd.Ptr)" % (a, ety)
-            base = "some (s, %s)" % a
+            sig = "(C : Bdd.CacheImpl) (lvl : Nat → Nat) (fuel : Nat) (s : C.σ) %s : List %s → Option (C.σ × %s)" % (binders, ety, rty)
+            base = "some (s, %s)" % ", ".join(accs)
         else:
-            sig = "(lvl : Nat → Nat) (%s : Bdd.Ptr) : List %s → Bdd.Ptr" % (a, ety)
-            base = a
+            sig = "(lvl : Nat → Nat) %s : List %s → %s" % (binders, ety, rty)
+            base = accs[0] if len(accs) == 1 else "(%s)" % ", ".join(accs)
         self.aux.append("def %s %s\n  | [] => %s\n  | %s :: %s =>\n%s\n" % (lname, sig, base, x, rest, indent(txt, 4)))
+        start = [lean(ctx.env[cn]) for cn in carried]
+        if len(carried) == 1:
+            acc = carried[0]
+            if stateful:
+                return self.effect_call(ap(name, "C", "lvl", "fuel", ctx.state, start[0], lean(xs)), ctx,
+                                        lambda c, v: k(c.bind(acc, v), UNIT), acc)
+            return k(ctx.bind(acc, L(ap(name, "lvl", start[0], lean(xs)), ctys[0])), UNIT)
+        outs = [self.fresh(cn) for cn in carried]
+        c2 = ctx
+        for cn, on, ct in zip(carried, outs, ctys):
+            c2 = c2.bind(cn, L(on, ct))
         if stateful:
-            return self.effect_call(ap(name, "C", "lvl", "fuel", ctx.state, lean(ctx.env[acc]), lean(xs)), ctx,
-                                    lambda c, v: k(c.bind(acc, v), UNIT), acc)
-        return k(ctx.bind(acc, L(ap(name, "lvl", lean(ctx.env[acc]), lean(xs)), "ptr")), UNIT)
+            s1 = self.fresh("s")
+            call = ap(name, "C", "lvl", "fuel", ctx.state, *(start + [lean(xs)]))
+            return "(match %s with\n| none => none\n| some (%s, %s) => %s)" % (call, s1, ", ".join(outs), k(c2.with_state(s1), UNIT))
+        call = ap(name, "lvl", *(start + [lean(xs)]))
+        return "(match %s with\n| (%s) => %s)" % (call, ", ".join(outs), k(c2, UNIT))
 
 
 class _Impure(Exception):
@@ -2269,6 +2388,13 @@ def minByKey {α : Type} (f : α → Nat) : List α → Option α
 def maxByKey {α : Type} (f : α → Nat) : List α → Option α
   | [] => none
   | x :: xs => some (xs.foldl (fun acc y => if f acc > f y then acc else y) x)
+/-- `Iterator::max` / `min` on labels or levels -/
+def listMax : List Nat → Option Nat
+  | [] => none
+  | x :: xs => some (xs.foldl max x)
+def listMin : List Nat → Option Nat
+  | [] => none
+  | x :: xs => some (xs.foldl min x)
 /-- `Iterator::position` -/
 def position {α : Type} (f : α → Bool) : List α → Option Nat
   | [] => none
@@ -2315,11 +2441,24 @@ def main():
     status, parts = {}, []
     for name, model, rust, driver in FUNCTIONS:
         try:
+            del _TRS[:]
             text = driver()
             if PLACEHOLDER in text:
                 raise Untranslatable("internal: unresolved hole")
+            newst = []
+            for t_ in _TRS:
+                for x_ in t_.new_state:
+                    if x_ not in newst:
+                        newst.append(x_)
+            if newst:
+                raise Differs(", ".join(("the builder field `%s`" % x_) if "(" not in x_ else ("`%s`" % x_) for x_ in newst)
+                              + " is read/written by the source; the model definition has no state or parameter for it")
             parts.append([name, model, rust, "/-- translated from `%s` -/\n%s\n" % (rust, text)])
             status[rust] = "translated (-> Gen.BddCore.%s, tied to %s)" % (name, model if len(model) < 40 else "its model expression")
+        except Differs as e:
+            why = ("%s" % e).replace("\n", " ")
+            parts.append([name, model, rust, fallback_text(name, model, rust, "DIFFERS (new state): " + why)])
+            status[rust] = "DIFFERS (new state): %s" % why[:300]
         except Exception as e:  # never crash: fall back for this function alone
             why = ("%s" % e if isinstance(e, (Untranslatable, OSError)) else "internal %s: %s" % (type(e).__name__, e)).replace("\n", " ")
             if os.environ.get("GEN_DEBUG") and not isinstance(e, Untranslatable):
